@@ -8,9 +8,13 @@ import Babylon.Gen.Coro
 import Babylon.Coro.Futex
 import Babylon.Coro.Cancel
 import Babylon.Coro.Await
+import Babylon.Coro.Theorems
+import Babylon.Coro.Counter
+import Babylon.Coro.CancelLemmas
+import Babylon.Coro.AwaitLemmas
 
 namespace Babylon.Properties.C13
-open Babylon.Coro Babylon.Gen.Coro
+open Babylon.Coro Babylon.Gen.Coro Babylon.Core
 
 /-! ## Generated obligations: the source still has the statements the models were written against -/
 
@@ -82,5 +86,313 @@ theorem gen_await :
     stmts_future_await_ready = Await.Stmts.future_await_ready ∧
     stmts_future_await_suspend = Await.Stmts.future_await_suspend ∧
     stmts_set_awaiter = Await.Stmts.set_awaiter := by decide
+
+/-! ## Coroutine futex (model: Babylon/Coro/Futex.lean, repaired configuration `cfgFixed`)
+
+`Reach s` = `s` is reachable from the initial state by ANY interleaving of any number of client threads
+(wake_one / wake_all / cancel with fresh or stale tokens / stores to the futex words) and coroutine
+frames (any programs of waits, any number of futexes, any history of slot reuse).
+`HoldsWait s a n` = actor `a` has taken the wait in slot `n` and has not yet called `resume` for it;
+`AtResume s a n` = `a` is at the statement `node->promise->resume(node->handle)` for slot `n`. -/
+
+/-- the configuration the theorems are about is the one the source has (`gen_wake_all`) -/
+theorem gen_cfg : cfgFixed.nextFirst = wakeAllNextFirst := by decide
+
+/-- **cofutex_resume_at_most_once.**  No reachable state has ever seen a `resume` of a coroutine that was
+not suspended (`bad` is set by every such call and never cleared); an actor about to call `resume` targets a
+suspended coroutine whose *current* wait is this slot and which was not resumed yet; and two actors never
+hold waits of the same coroutine — so every suspension is resumed at most once, by the single winner of
+`take`. -/
+theorem cofutex_resume_at_most_once {s : State} (h : Reach s) :
+    s.bad = false ∧
+    (∀ a n, AtResume s a n → s.fr (s.node n).h = .suspended ∧ (s.box n).rsm = false ∧ s.wslot (s.node n).h = some n ∧
+      (s.box n).own = some a) ∧
+    (∀ a b n m, HoldsWait s a n → HoldsWait s b m → (s.node n).h = (s.node m).h → n = m ∧ a = b) := by
+  refine ⟨h.inv.noBad, ?_, fun a b n m hn hm he => holds_unique h hn hm he⟩
+  intro a n hr
+  have := holds_facts h (atResume_holds h hr)
+  exact ⟨this.2.2.2.2.1, this.2.2.2.1, this.2.2.2.2.2.2, this.2.2.1⟩
+
+/-- the resume itself: from a state where `a` is at the resume statement, the step marks the coroutine
+`resuming` (exactly one more resume for that coroutine, none for the others) and moves `a` on -/
+theorem cofutex_resume_step {s : State} (h : Reach s) {a : Actor} {n : Nat} (hr : AtResume s a n) (inp : Nat × Nat) :
+    ∃ s', step cfgFixed s a inp = some (s', .resume (s.node n).h (s.fex (s.node n).h)) ∧
+      s'.fr (s.node n).h = .resuming ∧ s'.resumes (s.node n).h = s.resumes (s.node n).h + 1 ∧ s'.bad = false := by
+  have hf := (cofutex_resume_at_most_once h).2.1 a n hr
+  have hb := h.inv.noBad
+  have hres : (s.resumeOf n).fr (s.node n).h = .resuming ∧ (s.resumeOf n).resumes (s.node n).h = s.resumes (s.node n).h + 1 ∧
+      (s.resumeOf n).bad = false := by
+    simp [State.resumeOf, State.resume, hf.1, hb]
+  rcases hr with e | ⟨nx, k, took, rs, e⟩ | e
+  · exact ⟨_, step_oResume e, hres⟩
+  · exact ⟨_, step_aResume e, hres⟩
+  · exact ⟨_, step_cResume e, hres⟩
+
+/-- **cofutex_wake_one_progress.**  (1) A `wake_one` that ends its scan empty-handed has looked at every
+waiter that was linked when it took the lock (`seen = l0`) and left the list empty; (2) during the scan the
+nodes skipped so far followed by the still linked ones are exactly the lock-time list, the scan position
+is the first linked node, and that node is skipped only if its ownership is already in the hands of a
+canceller that has not unlinked it yet; (3) an untaken node is taken, the scan stops and `wake_one` goes on
+to resume its coroutine.  Hence: if some waiter linked at lock time is not being cancelled, `wake_one`
+resumes one. -/
+theorem cofutex_wake_one_progress {s : State} (h : Reach s) {a : Actor} {f : Nat} {l0 seen : List Nat} :
+    (s.pc a = .oUnlock f none l0 seen → seen = l0 ∧ s.glist f = [] ∧ s.hnext f = none) ∧
+    (∀ cur, s.pc a = .oScan f cur l0 seen →
+      l0 = seen ++ s.glist f ∧ (s.glist f).head? = some cur ∧
+      ((s.box cur).taken = true → CancelPending s cur) ∧
+      ((s.box cur).taken = false → ∀ inp, ∃ s', step cfgFixed s a inp = some (s', .take cur (s.node cur).ver true) ∧
+        s'.pc a = .oUnlock f (some cur) l0 seen)) := by
+  refine ⟨fun hp => wake_one_none h hp, ?_⟩
+  intro cur hp
+  have := wake_one_scan h hp
+  exact ⟨this.1, this.2.1, this.2.2.2, fun hnt inp => wake_one_takes h hp hnt⟩
+
+/-- the lock step of `wake_one` records the list as it is at that moment -/
+theorem cofutex_wake_one_lock {s s' : State} {a : Actor} {f : Nat} {inp : Nat × Nat} {e : Ev}
+    (hp : s.pc a = .oLock f) (hs : step cfgFixed s a inp = some (s', e)) :
+    (∃ cur, s'.pc a = .oScan f cur (s.glist f) []) ∨ s'.pc a = .oUnlock f none (s.glist f) [] := by
+  rw [step_oLock hp] at hs
+  split at hs
+  · cases hx : s.hnext f with
+    | none => rw [hx] at hs; injection hs with hs; injection hs with hs _; subst hs; right; simp
+    | some x => rw [hx] at hs; injection hs with hs; injection hs with hs _; subst hs; left; exact ⟨x, by simp⟩
+  · cases hs
+
+/-- **cofutex_wake_all_complete.**  (1) first phase: a node is skipped only if a canceller owns it; at the
+end every waiter linked at lock time is either taken by this `wake_all` or was skipped, the taken ones form
+the private chain `hd -> …` and the futex list is empty; (2) second phase: the resumed nodes are always a
+prefix of the taken ones and the chain from the current node is the rest; each node is held (suspended
+coroutine, first resume); (3) when `wake_all` is about to return it has resumed exactly the nodes it took,
+in order, and returns their number. -/
+theorem cofutex_wake_all_complete {s : State} (h : Reach s) {a : Actor} :
+    (∀ f hd tail cur took pend skip l0, s.pc a = .aScan f hd tail cur took pend skip l0 →
+      (∀ x, x ∈ l0 ↔ (x ∈ took ∨ x ∈ skip ∨ x ∈ pend)) ∧ pend.head? = some cur ∧ s.glist f = [] ∧
+      ((s.box cur).taken = true → CancelPending s cur)) ∧
+    (∀ f hd took skip l0, s.pc a = .aUnlock f hd took skip l0 →
+      (∀ x, x ∈ l0 ↔ (x ∈ took ∨ x ∈ skip)) ∧ NChain s.node hd took ∧ took.Nodup ∧ s.glist f = [] ∧
+      (∀ n ∈ took, HoldsWait s a n)) ∧
+    (∀ n nx k took rs, s.pc a = .aResume n nx k took rs →
+      rs = took.take k ∧ (∃ rest, took.drop k = n :: rest ∧ NChain s.node nx rest) ∧ HoldsWait s a n) ∧
+    (∀ n k took rs, s.pc a = .aFree n none k took rs → rs = took ∧ k + 1 = took.length) :=
+  ⟨fun _ _ _ _ _ _ _ _ hp => wake_all_scan h hp, fun _ _ _ _ _ hp => wake_all_phase1 h hp,
+   fun _ _ _ _ _ hp => wake_all_phase2 h hp, fun _ _ _ _ hp => wake_all_done h hp⟩
+
+/-- the old shape of the second loop (`node = node->next` after `finish_released`, DESIGN 7 #4) does NOT
+have this property: in the reachable state below `wake_all` has returned 1 although it took two waiters;
+the other one is suspended, its slot is taken by the returned `wake_all`, so nobody will ever resume it and
+the slot is never recycled.  (Replayed on the real code before commit 3796820: corpus seed 415.) -/
+theorem cofutex_wake_all_old_shape_counterexample :
+    ∃ s, Reachable (· = State.init) (Step cfgOld) s ∧
+      s.pc (.cl 9) = .idle ∧ s.res 9 = 1 ∧ s.fr 1 = .suspended ∧
+      (s.box 1).alloc = true ∧ (s.box 1).taken = true ∧ (s.box 1).own = some (.cl 9) ∧ (s.box 1).rsm = false := by
+  have hrun : (runMoves cfgOld State.init witnessMoves).isSome = true := by rfl
+  obtain ⟨s, hs⟩ := Option.isSome_iff_exists.mp hrun
+  refine ⟨s, runMoves_reachable (Reachable.base rfl) hs, ?_⟩
+  have e : (runMoves cfgOld State.init witnessMoves).map
+      (fun s => (s.pc (.cl 9), s.res 9, s.fr 1, (s.box 1).alloc, (s.box 1).taken, (s.box 1).own, (s.box 1).rsm)) =
+      some (.idle, 1, .suspended, true, true, some (.cl 9), false) := by rfl
+  rw [hs] at e
+  simp only [Option.map_some, Option.some.injEq, Prod.mk.injEq] at e
+  exact e
+
+/-- the same schedule in the repaired configuration is not even a run: `wake_all` reads `next` first -/
+example : runMoves cfgFixed State.init witnessMoves = none := by rfl
+
+/-- **cofutex_no_leak.**  Every allocated deposit-box slot is accounted for: it is the unpublished slot of a
+coroutine that is still inside `await_suspend`, or it is taken and its taker's program counter holds it
+(and will finish it), or it is published, untaken and linked (or waiting to be scanned by a `wake_all`
+that holds the lock) - a wait in progress.  At quiescence the allocated slots are exactly the linked,
+untaken waits of suspended coroutines, one per coroutine (`wslot` is a function), and every suspended
+coroutine has one: slots allocated − recycled = waits in progress. -/
+theorem cofutex_no_leak {s : State} (h : Reach s) :
+    (∀ n, (s.box n).alloc = true →
+      (∃ h', (s.pc (.fr h')).fresh = some n) ∨
+      (∃ a, (s.box n).own = some a ∧ (n ∈ (s.pc a).pre ∨ (s.pc a).post = some n)) ∨
+      ((s.box n).pub = true ∧ (s.box n).taken = false ∧
+        (n ∈ s.glist (s.node n).fut ∨ ∃ b, s.lock (s.node n).fut = some b ∧ n ∈ (s.pc b).pend))) ∧
+    ((∀ a, s.pc a = .idle) →
+      (∀ n, (s.box n).alloc = true → n ∈ s.glist (s.node n).fut ∧ (s.box n).taken = false ∧
+        s.fr (s.node n).h = .suspended ∧ s.wslot (s.node n).h = some n) ∧
+      (∀ h', s.fr h' = .suspended → ∃ n, s.wslot h' = some n ∧ (s.box n).alloc = true ∧ (s.node n).h = h' ∧
+        n ∈ s.glist (s.node n).fut)) :=
+  ⟨fun _ ha => slot_accounted h ha,
+   fun hq => ⟨fun _ ha => quiescent_slots h hq ha, fun _ hs => quiescent_frames h hq hs⟩⟩
+
+/-- **cofutex_nonmatching_no_suspend.**  The comparison of `add_awaiter` happens under the lock
+(`wLock` records `val f == v`); on a mismatch the wait goes `unlock -> take own slot -> finish own slot ->
+coroutine running again` by its own three steps; all along its slot is unpublished and in no list, and no
+actor holds a wait of this coroutine, so nobody can resume it: the coroutine continues without a
+suspension/resume cycle and the slot is recycled. -/
+theorem cofutex_nonmatching_no_suspend {s : State} (h : Reach s) {h' : Nat} :
+    (∀ f v n ver, s.pc (.fr h') = .wLock f v n ver → s.lock f = none → ∀ inp,
+      step cfgFixed s (.fr h') inp =
+        some (({ s with lock := upd s.lock f (some (.fr h')) }).setPc (.fr h') (.wLink f v n ver (s.val f == v)), .lock f)) ∧
+    (∀ f v n ver, s.pc (.fr h') = .wLink f v n ver false → ∀ inp, ∃ s',
+      step cfgFixed s (.fr h') inp = some (s', .unlock f) ∧ s'.pc (.fr h') = .wTake n ver ∧
+      s'.glist = s.glist ∧ s'.hnext = s.hnext ∧ s'.box = s.box) ∧
+    (∀ n ver, s.pc (.fr h') = .wTake n ver → ∀ inp, ∃ s',
+      step cfgFixed s (.fr h') inp = some (s', .take n ver true) ∧ s'.pc (.fr h') = .wFree n) ∧
+    (∀ n, s.pc (.fr h') = .wFree n → ∀ inp, ∃ s',
+      step cfgFixed s (.fr h') inp = some (s', .free n) ∧ s'.pc (.fr h') = .idle ∧ s'.fr h' = .running ∧
+      (s'.box n).alloc = false ∧ s'.resumes = s.resumes) ∧
+    (s.pc (.fr h') ≠ .idle → (∀ a n, HoldsWait s a n → (s.node n).h ≠ h') ∧
+      ∀ n, (s.pc (.fr h')).fresh = some n → (s.box n).pub = false ∧ ∀ f, n ∉ s.glist f) := by
+  refine ⟨?_, ?_, ?_, ?_, ?_⟩
+  · intro f v n ver hp hl inp
+    rw [step_wLock hp, if_pos hl]
+  · intro f v n ver hp inp
+    exact ⟨_, step_wLinkF hp, by simp, rfl, rfl, rfl⟩
+  · intro n ver hp inp
+    have hfr := h.inv.freshOk h' n (by simp [hp, Pc.fresh])
+    have hnt : (s.box n).taken = false := by
+      cases ht : (s.box n).taken
+      · rfl
+      · have := (hfr.2.2.2 ht).1; rw [hp] at this; cases this
+    have hv := h.inv.freshVerT h' n ver hp
+    have htk : (s.take n ver (.fr h')).1 = true := by simp [take_eq, hv, hnt]
+    refine ⟨(s.take n ver (.fr h')).2.setPc (.fr h') (.wFree n), ?_, by simp⟩
+    rw [step_wTake hp, htk]
+  · intro n hp inp
+    refine ⟨_, step_wFree hp, by simp, by simp [Actor.frame, upd], by simp [upd], rfl⟩
+  · intro hp
+    refine ⟨in_await_not_held h hp, ?_⟩
+    intro n hf
+    have := in_await_slot h hf
+    exact ⟨this.2.1, this.2.2⟩
+
+/-- the waiter list as pointers is the ghost list the theorems talk about: for every futex the `next` /
+`prev` fields starting at `_awaiter_head` spell exactly `glist f`, without duplicates, every member is an
+allocated, published node of this futex -/
+theorem cofutex_list_wf {s : State} (h : Reach s) (f : Nat) :
+    Chain s.node (.head f) (s.hnext f) (s.glist f) ∧ (s.glist f).Nodup ∧
+    ∀ n ∈ s.glist f, (s.box n).alloc = true ∧ (s.box n).pub = true ∧ (s.node n).fut = f := by
+  obtain ⟨h1, h2, h3⟩ := h.inv.listOk f
+  exact ⟨h1, h2, fun n hn => ⟨(h3 n hn).1, (h3 n hn).2.1, (h3 n hn).2.2.1⟩⟩
+
+/-! non-vacuity: the hypotheses of the theorems above are met by reachable states -/
+
+/-- two coroutines waiting on futex 0 (list = 2 -> 1), a `wake_all` in its second loop about to resume the
+first of the two waits it took -/
+example : ∃ s, Reach s ∧ s.pc (.cl 9) = .aResume 2 (some 1) 0 [2, 1] [] ∧ s.fr 2 = .suspended := by
+  let ms : List Move := [.spawn 1 0, .run 1, .spawn 2 0, .run 2] ++ waitMoves 1 1 7 ++ waitMoves 2 2 7 ++
+    [.wakeAll 9 0, .act (.cl 9) (0, 0), .act (.cl 9) (0, 0), .act (.cl 9) (0, 0), .act (.cl 9) (0, 0), .act (.cl 9) (0, 0)]
+  have hrun : (runMoves cfgFixed State.init ms).isSome = true := by rfl
+  obtain ⟨s, hs⟩ := Option.isSome_iff_exists.mp hrun
+  refine ⟨s, runMoves_reachable (Reachable.base rfl) hs, ?_⟩
+  have e : (runMoves cfgFixed State.init ms).map (fun s => (s.pc (.cl 9), s.fr 2)) =
+      some (.aResume 2 (some 1) 0 [2, 1] [], .suspended) := by rfl
+  rw [hs] at e
+  simp only [Option.map_some, Option.some.injEq, Prod.mk.injEq] at e
+  exact e
+
+/-- a `wake_one` whose scan meets a node taken by a canceller that has not unlinked it yet, with another
+waiter behind it (the situation of DESIGN 7 #3) -/
+example : ∃ s, Reach s ∧ s.pc (.cl 9) = .oScan 0 2 [2, 1] [] ∧ (s.box 2).taken = true ∧ s.pc (.cl 8) = .cLock 2 := by
+  let ms : List Move := [.spawn 1 0, .run 1, .spawn 2 0, .run 2] ++ waitMoves 1 1 7 ++ waitMoves 2 2 7 ++
+    [.cancel 8 2 7, .act (.cl 8) (0, 0), .wakeOne 9 0, .act (.cl 9) (0, 0)]
+  have hrun : (runMoves cfgFixed State.init ms).isSome = true := by rfl
+  obtain ⟨s, hs⟩ := Option.isSome_iff_exists.mp hrun
+  refine ⟨s, runMoves_reachable (Reachable.base rfl) hs, ?_⟩
+  have e : (runMoves cfgFixed State.init ms).map (fun s => (s.pc (.cl 9), (s.box 2).taken, s.pc (.cl 8))) =
+      some (.oScan 0 2 [2, 1] [], true, .cLock 2) := by rfl
+  rw [hs] at e
+  simp only [Option.map_some, Option.some.injEq, Prod.mk.injEq] at e
+  exact e
+
+/-! ## Cancellable wrapper (model: Babylon/Coro/Cancel.lean) -/
+
+/-- **cancel_single_winner.**  For every interleaving of the proxy task's completion path with any number of
+cancellations (fresh and stale tokens, slot reuse): the awaiter is never resumed while not suspended and
+at most once; the winner of `take` is unique and is the only one that resumes; once the proxy has finished
+its final step the awaiter has been resumed exactly once (or the winning canceller is at its resume
+statement); and the awaited result is the empty optional if and only if a cancellation won (otherwise it is
+the value the inner awaitable produced). -/
+theorem cancel_single_winner {s : Cancel.State} (h : Cancel.Reach s) (i : Nat) :
+    s.bad = false ∧ s.resumes i ≤ 1 ∧
+    (s.resumes i = 1 → s.winner i ≠ none) ∧
+    (s.ppc i = .done → s.resumes i = 1 ∨ ∃ c n, s.winner i = some (.cancel c) ∧ s.kpc c = .doCancel n i) ∧
+    (∀ r, s.result i = some r →
+      (r = none ↔ ∃ c, s.winner i = some (.cancel c)) ∧ (∀ v, r = some v → v = s.value i ∧ s.winner i = some .completion)) := by
+  have hI := h.inv
+  cases hw : s.winner i with
+  | none =>
+    have h0 := hI.w0 i hw
+    refine ⟨hI.noBad, by omega, by omega, ?_, ?_⟩
+    · intro hd
+      rcases h0.2.2.2 with ⟨_, h', _⟩ | ⟨n, v, _, _, _, _, _, _, h'⟩
+      · rw [hd] at h'; cases h'
+      · rcases h' with h' | h' <;> (rw [hd] at h'; cases h')
+    · intro r hr; rw [h0.2.2.1] at hr; cases hr
+  | some w =>
+    cases w with
+    | completion =>
+      have hc := hI.wC i hw
+      have hres : s.resumes i ≤ 1 := by rcases hc.2.2 with h' | h' | h' <;> omega
+      refine ⟨hI.noBad, hres, by simp, ?_, ?_⟩
+      · intro hd
+        rcases hc.2.2 with h' | h' | h'
+        · rcases h'.1 with e | e <;> (rw [hd] at e; cases e)
+        · rw [hd] at h'; cases h'.1
+        · exact Or.inl h'.2.1
+      · intro r hr
+        have := hI.resOk i r hr
+        rw [hc.1] at this
+        simp at this
+        subst this
+        exact ⟨by simp, fun v hv => by injection hv with hv; exact ⟨hv.symm, rfl⟩⟩
+    | cancel c =>
+      have hk := hI.wK i c hw
+      have hres : s.resumes i ≤ 1 := by rcases hk.2.2 with h' | h' <;> omega
+      refine ⟨hI.noBad, hres, by simp, ?_, ?_⟩
+      · intro _
+        rcases hk.2.2 with h' | h'
+        · obtain ⟨n, v, ht⟩ := hk.2.1
+          exact Or.inr ⟨c, n, rfl, h'.1 n v ht⟩
+        · exact Or.inl h'.2.1
+      · intro r hr
+        have hro := hI.resOk i r hr
+        rcases hk.2.2 with h' | h'
+        · rw [h'.2.2.2.2] at hr; cases hr
+        · rw [h'.2.2.1] at hro
+          simp at hro
+          subst hro
+          exact ⟨by simp, fun v hv => by cases hv⟩
+
+/-- non-vacuity: a run in which a cancellation wins and the awaiter receives the empty optional -/
+example : ∃ s, Cancel.Reach s ∧ s.result 0 = some none ∧ s.winner 0 = some (.cancel 5) := by
+  have r0 : Cancel.Reach Cancel.State.init := Reachable.base rfl
+  have r1 := Reachable.tail r0 (Cancel.Step.spawn _ 0 42 rfl)
+  have r2 := Reachable.tail r1 (Cancel.Step.arm _ 0 3 7 _ _ rfl)
+  have r3 := Reachable.tail r2 (Cancel.Step.cancel _ 5 3 7 rfl rfl (Nat.le_refl _))
+  have r4 := Reachable.tail r3 (Cancel.Step.kstep _ 5 _ _ rfl)
+  have r5 := Reachable.tail r4 (Cancel.Step.kstep _ 5 _ _ rfl)
+  have r6 := Reachable.tail r5 (Cancel.Step.run _ 0 _ rfl)
+  exact ⟨_, r6, rfl, rfl⟩
+
+/-! ## Task / future awaits (model: Babylon/Coro/Await.lean) -/
+
+/-- **await_resumed_on_executor.**  For every interleaving of tasks awaiting tasks (bound to the same, another
+or no executor), tasks awaiting futures (registration racing with `set_value`) and executors running pending
+resumptions: a coroutine bound to executor `e` only ever runs in the context of `e` - it is (re)started
+either by `invoke` on its own executor or inline by a thread that is already running in that executor;
+a pending resumption is always queued on the coroutine's own executor; and no coroutine is resumed while
+it is not suspended (every suspension is resumed at most once). -/
+theorem await_resumed_on_executor {s : Await.State} (h : Await.Reach s) :
+    s.wrongCtx = false ∧ s.bad = false ∧
+    (∀ f c e, s.fr f = .running c → s.fex f = some e → c = some e) ∧
+    (∀ f via, s.fr f = .resuming via → via = s.fex f) :=
+  ⟨h.inv.noWrong, h.inv.noBad, h.inv.ctxOk, h.inv.viaOk⟩
+
+/-- non-vacuity: frame 0 on executor 1 awaits task 1 bound to executor 2; the task is started through
+executor 2, finishes there, and frame 0 is queued back on executor 1 -/
+example : ∃ s, Await.Reach s ∧ s.fr 0 = .resuming (some 1) ∧ s.fr 1 = .done ∧ s.got 0 = some 5 := by
+  have r0 : Await.Reach Await.State.init := Reachable.base rfl
+  have r1 := Reachable.tail r0 (Await.Step.submit _ 0 1 _ rfl)
+  have r2 := Reachable.tail r1 (Await.Step.run _ 0 _ rfl)
+  have r3 := Reachable.tail r2 (Await.Step.create _ 1 (some 2) _ rfl)
+  have r4 := Reachable.tail r3 (Await.Step.awaitTask _ 0 1 _ rfl)
+  have r5 := Reachable.tail r4 (Await.Step.run _ 1 _ rfl)
+  have r6 := Reachable.tail r5 (Await.Step.finish _ 1 5 _ rfl)
+  exact ⟨_, r6, rfl, rfl, rfl⟩
 
 end Babylon.Properties.C13
